@@ -192,7 +192,11 @@ def run(ctx):  # noqa: C901
         ctx.ob("R-SDP", fs, "value == 2 * optimum - 1", okr, "2 * solution.value - 1" if okr else "returned value changed")
         oks = any(any(kw.arg == "solver" and unparse(kw.value) == "solver_option" for kw in c.keywords) for c in sk.solves)
         ctx.ob("R-THREAD", fs, "solver_option->solve(solver=)", oks, "used" if oks else "ignored")
-    okk = any(isinstance(n, ast.Assign) and unparse(n).replace(" ", "") == "sym_choi=symmetric_projection(dim_a,k)" for n in walk_no_nested(fs.node))
+    okk = False
+    for c_, cal_ in calls_from(m, fs, "symmetric_projection.symmetric_projection"):
+        b_ = m.bind(c_, cal_.func)
+        if isinstance(b_.get("p_val"), ast.Name) and b_["p_val"].id == "k" and isinstance(b_.get("dim"), ast.Name) and b_["dim"].id == "dim_a":
+            okk = True
     ctx.ob("R-THREAD", fs, "extension level k reaches the symmetric projector", okk, "symmetric_projection(dim_a, k)" if okk else "level not threaded")
 
 
